@@ -19,13 +19,14 @@ RULE = (
 EXHAUSTIVE = {"quick": True, "thorough": True}
 EXHAUSTIVE_PART = "all nuclide bases, elements, burn-chain entries and material classes (temperatures are a grid over each stated range)"
 TOLERANCES = {"abundance_sum": 1e-6, "massfrac_sum": 1e-5}
-FLOORS = {"quick": {"nuclide": 4000, "element": 100, "burnchain.entry": 100, "material": 40, "material.T": 500, "nucDir.natural": 200, "nucDir.natural-mass": 60, "nucDir.members": 100},
-          "thorough": {"nuclide": 4000, "element": 100, "burnchain.entry": 100, "material": 40, "material.T": 5000, "nucDir.natural": 200, "nucDir.natural-mass": 60, "nucDir.members": 100}}
+FLOORS = {"quick": {"nuclide": 4000, "element": 100, "burnchain.entry": 100, "material": 40, "material.T": 500, "nucDir.natural": 200, "nucDir.natural-mass": 60, "nucDir.members": 100, "encoding.mcc": 500, "burnchain.file-vs-live": 30, "burnchain.file-product": 100},
+          "thorough": {"nuclide": 4000, "element": 100, "burnchain.entry": 100, "material": 40, "material.T": 5000, "nucDir.natural": 200, "nucDir.natural-mass": 60, "nucDir.members": 100, "encoding.mcc": 500, "burnchain.file-vs-live": 30, "burnchain.file-product": 100}}
 
 SYMBOLS = ("H HE LI BE B C N O F NE NA MG AL SI P S CL AR K CA SC TI V CR MN FE CO NI CU ZN GA GE AS SE BR KR RB SR Y ZR NB MO TC RU RH PD "
            "AG CD IN SN SB TE I XE CS BA LA CE PR ND PM SM EU GD TB DY HO ER TM YB LU HF TA W RE OS IR PT AU HG TL PB BI PO AT RN FR RA AC TH "
            "PA U NP PU AM CM BK CF ES FM MD NO LR RF DB SG BH HS MT DS RG CN NH FL MC LV TS OG").split()
 ZOF = {s: i + 1 for i, s in enumerate(SYMBOLS)}
+MCC_LABELS_NOT_OF_THE_PATTERN = {("mcc2", "HYDRGN")}  # MC2-2 names hydrogen-1 by word; every other isotope label follows SYMBOL[-]A[M]
 ABSTRACT = {"Material", "Fluid", "SimpleSolid", "FuelMaterial", "_Mixture", "Water"}
 NO_COMPOSITION_BY_DESIGN = {"Custom", "Void"}
 
@@ -119,6 +120,24 @@ def do_nuclides(spec, rec, rng):
                 rec.violation("encoding/aaazzzs", "%s: AAAZZZS id %r, expected %r" % (n.name, n.getAAAZZZSId(), enc_aaazzzs(n.z, n.a, n.state)), w)
             if n.getDatabaseName() != "n" + n.name.capitalize():
                 rec.violation("encoding/dbname", "%s: db name %r" % (n.name, n.getDatabaseName()), w)
+            # the MC2-2 / MC2-3 library labels encode the same (symbol, A, isomer) - decoded here with a pattern written from the label
+            # conventions (SYMBOL[-]A[M] + padding + library suffix), not with armi's own naming helpers
+            for kind, getter in (("mcc2", n.getMcc2Id), ("mcc3-VII0", n.getMcc3IdEndfbVII0), ("mcc3-VII1", n.getMcc3IdEndfbVII1)):
+                try:
+                    lab = getter()
+                except Exception:
+                    lab = None
+                if not lab:
+                    continue
+                rec.hit("encoding.mcc")
+                if (kind, lab) in MCC_LABELS_NOT_OF_THE_PATTERN:
+                    rec.skip("library label outside the SYMBOL-A pattern (%s %r): listed exception, identity/uniqueness still judged" % (kind, lab))
+                    continue
+                mm = re.fullmatch(r"([A-Z]{1,2})-?(\d{1,3})(M?)[ _]*[0-9A-Z]{0,2}", lab)
+                # six-character labels of isomers with A >= 100 keep the last two digits of A ("AG10M7" = Ag-110m)
+                a_ok = mm is not None and (int(mm.group(2)) == n.a or (n.state > 0 and n.a >= 100 and mm.group(2) == "%02d" % (n.a % 100)))
+                if not mm or mm.group(1) != sym or not a_ok or bool(mm.group(3)) != (n.state > 0):
+                    rec.violation("encoding/%s" % kind, "%s: %s label %r does not encode (%s, A=%d, state=%d)" % (n.name, kind, lab, sym, n.a, n.state), w)
             # decode the name back (regex) and compare
             m = re.fullmatch(r"([A-Z]{1,2})(\d+)(M\d?|G)?", n.name)
             if not m or ZOF.get(m.group(1)) != n.z or int(m.group(2)) != n.a:
@@ -266,6 +285,41 @@ def do_burnchain(spec, rec, rng):
                 rec.violation("burnchain/transmutation-type", "%s type %r" % (n.name, t.type), w)
             rec.case(["burn", n.name, t.type, list(t.productNuclides)], sample=w if n.name == "U238" and t.type == "nGamma" else None)
     rec.note("nuclides_with_burn_data", nwith)
+    # every entry NAMED IN THE BURN-CHAIN FILE is present in the live directory with its products, type and branch (a loader that drops
+    # alternate products, branching decays or whole entries leaves the live objects self-consistent, so judge against the file itself)
+    try:
+        import os
+
+        from armi import context
+        from ruamel.yaml import YAML
+
+        with open(os.path.join(context.RES, "burn-chain.yaml")) as f:
+            raw = YAML(typ="safe").load(f)
+        for parent, infos in raw.items():
+            want = []
+            for info in infos:
+                (kind, d), = info.items()
+                if kind in ("transmutation", "decay"):
+                    want.append((kind, str(d["type"]), tuple(str(x) for x in d["products"]), float(d["branch"])))
+                    for prod in d["products"]:
+                        rec.hit("burnchain.file-product")
+                        if str(prod) not in nb.byName:
+                            rec.violation("burnchain/file-names-unknown-product", "%s: burn-chain.yaml names product %r, which is not a nuclide of the directory" % (parent, prod), {"parent": parent})
+            n = nb.byName.get(parent)
+            if n is None:
+                rec.violation("burnchain/file-names-unknown-parent", "burn-chain.yaml has an entry for %r, not a nuclide of the directory" % parent, {"parent": parent})
+                continue
+            got = [("transmutation", t.type, tuple(t.productNuclides), float(t.branch)) for t in n.trans] + [("decay", t.type, tuple(t.productNuclides), float(t.branch)) for t in n.decays]
+            rec.hit("burnchain.file-vs-live")
+            if sorted(got) != sorted(want):
+                missing = [x for x in want if x not in got]
+                extra = [x for x in got if x not in want]
+                rec.violation("burnchain/live-differs-from-file", "%s: burn-chain.yaml names %d entries, the directory holds %d; only in the file %s, only in the directory %s" % (parent, len(want), len(got), missing[:3], extra[:3]), {"parent": parent})
+        for n in nb.instances:
+            if (n.trans or n.decays) and n.name not in raw:
+                rec.violation("burnchain/live-entry-not-in-file", "%s has burn data but no entry in burn-chain.yaml" % n.name, {"parent": n.name})
+    except Exception as e:
+        rec.crash("burnchain-file-comparison", e, {})
 
 
 def trange(spec_range, units, n):
@@ -321,7 +375,8 @@ def do_materials(spec, rec, rng):
         temps_e = trange(exp_rng[0], exp_rng[1], nT) if exp_rng else None
         stated = temps_d is not None
         if temps_d is None:
-            temps_d = [(25.0, "C"), (100.0, "C"), (300.0, "C"), (500.0, "C")]
+            # no range stated (UZr, MOX, Graphite, Inconel, ... ~20 classes): judged over the temperatures the shipped inputs build blocks at
+            temps_d = [(25.0, "C"), (100.0, "C"), (300.0, "C"), (450.0, "C"), (600.0, "C")]
         if temps_e is None:
             temps_e = temps_d
 
@@ -343,7 +398,7 @@ def do_materials(spec, rec, rng):
                     if stated:
                         rec.violation("material/%s/%s/%s%s" % (fn, name, mech, "" if mech == "zero" else "-at-" + where), why, dict(w, T=T, units=u))
                     else:
-                        rec.skip("density fails outside any stated range: %s" % name)
+                        rec.violation("material/%s/%s/%s/no-stated-range" % (fn, name, mech), why + " (the class states no validity range; judged at 25-600 C)", dict(w, T=T, units=u))
                     break
         for T, u in temps_e:
             rec.hit("material.T")
@@ -354,9 +409,6 @@ def do_materials(spec, rec, rng):
             except Exception as e:
                 ok, why = False, "%s.linearExpansionPercent(%r %s) raised %s: %s" % (name, T, u, type(e).__name__, str(e)[:100])
             if not ok:
-                if exp_rng:
-                    rec.violation("material/expansion/%s" % name, why, dict(w, T=T, units=u))
-                else:
-                    rec.skip("expansion fails outside any stated range: %s" % name)
+                rec.violation("material/expansion/%s%s" % (name, "" if exp_rng else "/no-stated-range"), why, dict(w, T=T, units=u))
                 break
         rec.case(["material", name, nT], sample={"material": name, "massfrac_sum": tot, "density_range": str(dens_rng), "expansion_range": str(exp_rng)} if name in ("HT9", "UZr") else None)
